@@ -48,6 +48,22 @@ PROPERTIES = {
             {"test": "TestC03Natural", "quick": 600, "thorough": 40000},
         ],
     },
+    "C04": {
+        "level": "exploration",
+        "rule": "rapid constructs fee lists around the boundaries the statement names: valid lists by construction; a valid list plus one fixed "
+                "entry bringing the total to A-2..A+7; hostile entries (bps 0/10001/2^32-1, fixed amounts '0','-1','1.5','1e3','',2^255,2^256, "
+                "invalid recipients); 5-7 entries; A*bps around 2^256 and fixed amounts summing around 2^256; A from 1 to 2^256-1. Each list runs "
+                "(a) directly against FeeController.HandlePacket with an in-memory bank and (b) through the memo on the real stack (internal "
+                "route, non-FTF denom). Oracle = reference model, both directions: a listed reason => refused with nothing paid; no listed "
+                "reason (clean environment) => accepted, every recipient credited exactly floor(A*bps/10000) / its fixed amount, zero entries "
+                "credit nothing, forwarded = A - sum. Non-trivial = a list with >= 1 entry where rounding, the sum-vs-A boundary, "
+                "non-compounding (>= 2 bps entries), the entry count or values near 2^256 are decisive; distinct by (A, list).",
+        "assumptions": COMMON_ASSUMPTIONS + ["don't-care regions: non-decimal integer spellings of fixed amounts ('+5','007','0x10'), A*bps needing more than 256 bits while the fee itself fits, fee recipient = orbiter account (acceptance only)"],
+        "tests": [
+            {"test": "TestC04Direct", "quick": 20000, "thorough": 1600000},
+            {"test": "TestC04EndToEnd", "quick": 2500, "thorough": 200000},
+        ],
+    },
     "C05": {
         "level": "exploration",
         "rule": "LAB world (recorded requests): rapid draws payloads valid by construction over every attribute value of the three routes, "
